@@ -444,10 +444,14 @@ func backoff(baseDelay, maxDelay time.Duration, retries int) time.Duration {
 		backoff = backoff * 1.5
 		retries--
 	}
-	if backoff > max {
-		backoff = max
+	if backoff >= max {
+		// Not every duration is representable as float64: do not round above maxDelay (or overflow).
+		return maxDelay
 	}
-	return time.Duration(backoff)
+	if d := time.Duration(backoff); d > baseDelay {
+		return d
+	}
+	return baseDelay
 }
 
 // createCloudSpannerInstanceIfMissing creates a one node "Instance" of Cloud Spanner in the specificed project if missing.
